@@ -174,6 +174,32 @@ claim("C02", "exploration",
       "from the following update on.  Sampled.",
       TB + " Counters are C01's business and are not compared here.", "DESIGN.md 4 (C02)")
 
+claim("C16", "exploration",
+      "runtime monitoring: twin differential - the same outcome sequence presented under re-encoded labels / container shapes / "
+      "agreement-preserving pair substitutions, and with junk in documented-unused arguments; full output traces compared",
+      "For DDM / EDDM / STEPD / ADWINAccuracy the canonical run is compared after every sample with runs under 16 encodings "
+      "(ints, big ints, strings with common prefix, bools, floats, numpy scalars, five classes with varying pairs, 1-element "
+      "list / ndarray / Series / 2-d array), for LinearFourRates under the index-valid encodings of 0/1; all 14 zoo detectors are "
+      "run with and without junk objects in their documented-unused arguments under the same seed schedule.  Sampled.",
+      TB, "DESIGN.md 4 (C16)")
+claim("C17", "exploration",
+      "runtime monitoring: twin differential over ordered threshold values on identical histories and seed schedules; first-drift "
+      "indices and warning index sets compared (exact relation)",
+      "For each of 15 detection-threshold families (ADWIN / ADWINAccuracy delta, CUSUM and Page-Hinkley threshold, DDM drift_scale, "
+      "EDDM drift_thresh, STEPD alpha_drift, LFR detect_level, kdq-tree and NN-DVI alpha, HDDDM / CDBD significance for both "
+      "statistics) the same history is run under 4-5 ordered values with identical seeds; the first reported drift must never move "
+      "earlier with a stricter value; for the four warning thresholds the drift trace must be unchanged and warnings only added.  "
+      "Sampled.",
+      TB + " Page-Hinkley is driven with positive-valued streams (relative threshold).", "DESIGN.md 4 (C17)")
+claim("C18", "exploration",
+      "runtime monitoring: twin differential - every batch and the reference independently row-permuted (reversal, rotation, "
+      "shuffles) under the same seed schedule; distances, public leaf counts, references and decision traces compared",
+      "HDDDM / CDBD (detect_batch 2/3) distances, KdqTreeBatch public node counts (hence divergences) and decisions, NN-DVI "
+      "decisions and reference contents must be identical between the original history and four row-permuted versions of it, "
+      "with equal and unequal batch sizes and duplicates; for detect_batch 2 the comparison stops where the position-dependent "
+      "bootstrap threshold lets the decision traces part.  Sampled.",
+      TB, "DESIGN.md 4 (C18)")
+
 NOT_YET = "check not built yet in this revision of /verif (planned: see DESIGN.md section 4); nothing is claimed for it"
 
 
